@@ -370,6 +370,8 @@ class WritableStream(io.RawIOBase):
         self.pos = 0
         self._toggle = 0
         self._exp_header = None
+        #: Part of an expedited download written so far
+        self._exp_data = b""
         self._done = False
 
         if size is None or size < 1 or size > 4 or force_segment:
@@ -401,12 +403,16 @@ class WritableStream(io.RawIOBase):
             raise RuntimeError("All expected data has already been transmitted")
         if self._exp_header is not None:
             # Expedited download
-            if len(b) < self.size:
-                # Not enough data provided
-                return 0
-            if len(b) > 4:
+            data = self._exp_data + bytes(b)
+            if len(data) > 4:
                 raise AssertionError("More data received than expected")
-            data = b.tobytes() if isinstance(b, memoryview) else b
+            if len(data) < self.size:
+                # Not enough data provided yet, keep it until the rest
+                # has been written
+                self._exp_data = data
+                self.pos += len(b)
+                return len(b)
+            self._exp_data = b""
             request = self._exp_header + data.ljust(4, b"\x00")
             response = self.sdo_client.request_response(request)
             res_command, = struct.unpack_from("B", response)
